@@ -267,6 +267,12 @@ let () =
       | "wr" :: rest -> wr_op prev rest
       | "wr2" :: rest -> wr2_op prev rest
       | _ -> failwith "wrd");
+  register "wrb" (fun a ->
+      (* the body object had a previous life (a frame read into it and released): AcquireFrame's Reset
+         leaves nothing of it, so the model builds on a fresh body *)
+      match List.tl a with
+      | op :: rest when op = "wr" || op = "wr2" || op = "wrd" -> (Hashtbl.find ops op) rest
+      | _ -> failwith "wrb");
   register "rdm" (fun a ->
       (* each read obeys its own limit (d = the default) and nothing else *)
       let lims = String.split_on_char ',' (List.nth a 0) and b = bytes_of_hex (List.nth a 1) in
